@@ -638,7 +638,7 @@ func (m *w1mon) final() {
 			}
 		}
 	}
-	if s.on("C11") && s.sc.FaultFree && s.settledFinal && len(s.sc.Env) == 0 {
+	if s.on("C11") && s.sc.FaultFree && s.settledFinal && len(s.sc.Env) == 0 && s.noRequestFailed() {
 		// every byte exactly once
 		sent := map[string]int64{}
 		for _, t := range s.ob.tx {
